@@ -262,3 +262,26 @@ func valueShrinks(v any) []any {
 }
 
 func kwList(s gen.S) string { return strings.Join(gen.Keywords(s), ",") }
+
+type permissiveMatcher struct{}
+
+func (permissiveMatcher) MatchString(string) bool { return true }
+
+// primeCustomRegexCompiler validates one string against every pattern of the atom list with a caller-supplied regexp
+// compiler whose matchers accept everything. What a validation with a custom compiler compiles belongs to that
+// validation only: every later plain validation in this process is still judged against the reference.
+func primeCustomRegexCompiler(atoms []gen.S) int {
+	n := 0
+	permissive := func(string) (openapi3.RegexMatcher, error) { return permissiveMatcher{}, nil }
+	for _, a := range atoms {
+		p, ok := a["pattern"].(string)
+		if !ok {
+			continue
+		}
+		if sc, err := kinSchema(gen.S{"type": "string", "pattern": p}); err == nil {
+			core.Guard(func() { sc.VisitJSON("\x00 no pattern of the workload matches this", openapi3.SetSchemaRegexCompiler(permissive)) })
+			n++
+		}
+	}
+	return n
+}
